@@ -374,9 +374,9 @@ def _block_ref(dense, directed=False):
 
 
 class Entry:
-    def __init__(self, name, variant, mk, kind, force_kw, outs, np_seed=False, custom=None):
+    def __init__(self, name, variant, mk, kind, force_kw, outs, np_seed=False, custom=None, quick_every=1):
         self.name, self.variant, self.mk, self.kind, self.force_kw, self.outs = name, variant, mk, kind, force_kw, outs
-        self.np_seed, self.custom = np_seed, custom
+        self.np_seed, self.custom, self.quick_every = np_seed, custom, quick_every
 
     @property
     def label(self):
@@ -410,7 +410,7 @@ def _table():
     for ni in (1, 5):
         T.append(Entry('KCenters', 'both,n_init=%d' % ni,
                        (lambda ni=ni: KCenters(n_clusters=2, center_position='both', n_init=ni)), None, True, ['labels'],
-                       np_seed=True, custom=_compare_centers))
+                       np_seed=True, custom=_compare_centers, quick_every=3 if ni > 1 else 1))   # 5 restarts: slow
     T.append(Entry('Paris', '', lambda: Paris(), None, False, ['dendrogram']))
     T.append(Entry('LouvainHierarchy', '', lambda: LouvainHierarchy(shuffle_nodes=False, random_state=0), None, True, ['dendrogram']))
     T.append(Entry('LouvainIteration', '', lambda: LouvainIteration(shuffle_nodes=False, random_state=0), None, True, ['dendrogram']))
@@ -764,10 +764,12 @@ def relation_cases(ctx, mats, seeds_per=2, sub=None, outcomes=None, only=None):
     tgt = sub or ctx
     rng = ctx.rng
     table = [e for e in _table() if only is None or e.name in only]
-    for dense, container in mats:
+    for mi, (dense, container) in enumerate(mats):
         nr, nc = dense.shape
         square = nr == nc
         for e in table:
+            if ctx.quick and mi % e.quick_every:
+                continue
             seeds = _seed_sets(rng, e.kind, nr, nc)
             if len(seeds) > seeds_per:
                 # the no-seed form (where it exists) in a third of the draws, the rest sampled from the placements
@@ -871,6 +873,43 @@ def structure_one(tgt, dense, container, force, outcomes=None):
                       {'why': why[2], 'index_bip': ib.tolist(), 'index_block': ia.tolist()})
 
 
+def modularity_one(tgt, dense, outcomes=None):
+    """get_modularity(B, labels_row, labels_col) on a rectangular B against get_modularity(block, labels_row ++ labels_col)
+    (the function has no force_bipartite: a square matrix is always an adjacency matrix for it)."""
+    from sknetwork.clustering import get_modularity
+    dense = np.asarray(dense)
+    nr, nc = dense.shape
+    a = _block_ref(dense)
+    x = sparse.csr_matrix(dense)
+    desc = {'f': 'modularity', 'entry': 'get_modularity',
+            'biadjacency': {'shape': [nr, nc], 'dense': dense.tolist(), 'dtype': str(dense.dtype), 'container': 'csr'}}
+    sig = {'entry': 'get_modularity', 'variant': '', 'relation': 'bipartite-as-block', 'seeds': 'none'}
+    for t, (lr, lc) in enumerate([(np.arange(nr) % 2, (np.arange(nc) + 1) % 2), (np.arange(nr) % 3, np.arange(nc) % 2),
+                                  (np.zeros(nr, dtype=int), np.arange(nc))]):
+        key = ('mod', dense.shape, tuple(dense.ravel().tolist()), t)
+        tgt.count('relation:get_modularity')
+        (rb, err_b) = _try(lambda: get_modularity(x, lr, lc, return_all=True))
+        (ra, err_a) = _try(lambda: get_modularity(a, np.concatenate([lr, lc]), return_all=True))
+        if err_b or err_a:
+            tgt.case(key, False, None)
+            if outcomes is not None and err_b and err_a:
+                outcomes.add('get_modularity', 'both-raise')
+            if bool(err_b) != bool(err_a) or err_b.split(':')[0] != err_a.split(':')[0]:
+                tgt.spec_fail(dict(sig, output='*', reason='raises-differently'), dict(desc, labels=t),
+                              {'why': 'the two forms do not raise alike', 'biadjacency_form': err_b, 'block_form': err_a})
+            continue
+        ok = all(float(u) == float(v) for u, v in zip(rb, ra))
+        if outcomes is not None:
+            outcomes.add('get_modularity', 'compared')
+            if dense.any() and float(ra[0]) != 0.0:
+                outcomes.add('get_modularity', 'nontrivial')
+        tgt.case(key, bool(dense.any()) and float(ra[0]) != 0.0, {'entry': 'get_modularity', 'biadjacency': dense.tolist(), 'holds': ok})
+        if not ok:
+            tgt.spec_fail(dict(sig, output='modularity', reason='differs'), dict(desc, labels=t),
+                          {'why': 'modularity, fit or diversity of (B, labels_row, labels_col) differ from those of the block adjacency',
+                           'bip': [float(u) for u in rb], 'block': [float(v) for v in ra]})
+
+
 def louvain_embedding_one(tgt, dense, force, outcomes=None):
     """LouvainEmbedding is NOT a function of the block adjacency (a biadjacency matrix is embedded directly: the rows in
     the space of the column clusters that keep at least two COLUMNS, the columns in the space of the row labels), so the
@@ -930,6 +969,7 @@ def structure_cases(ctx, mats, sub=None, outcomes=None):
         if nr != nc:
             structure_one(tgt, dense, container, False, outcomes)      # a rectangular matrix is bipartite by itself
             louvain_embedding_one(tgt, dense, False, outcomes)
+            modularity_one(tgt, dense, outcomes)
         structure_one(tgt, dense, container, True, outcomes)
         louvain_embedding_one(tgt, dense, True, outcomes)
 
@@ -1098,6 +1138,9 @@ def _replay_case(ctx, case, neighbourhood=True, outcomes=None):
         louvain_embedding_one(ctx, dense, bool(case.get('force_bipartite_keyword')), outcomes)
         if neighbourhood:
             structure_cases(ctx, [(dense, 'csr')])
+    elif f == 'modularity':
+        bd = case['biadjacency']
+        modularity_one(ctx, np.array(bd['dense']).astype(bd.get('dtype', 'float64')).reshape(bd['shape']), outcomes)
     elif f == 'get_values':
         arr = case.get('array', False)
         cs = [_case_values(case['n'], _dec_values(case['values'], arr), case['default'])]
